@@ -1,6 +1,7 @@
 """Symbolic values: SV(ty, t), boxing, coercion, merging."""
 import z3
 
+from .types import elem_sort, snth, sunit
 from .types import (TBool, TInt, TMap, TNone, TOpaque, TOpt, TRef, TSeq, TStr,
                     TTuple, TUnion, TFun, Type, join, none_term, opt)
 
@@ -163,7 +164,7 @@ class _SeqLit:
         out = z3.Empty(ty.sort())
         parts = []
         for it in self.items:
-            parts.append(z3.Unit(box(coerce(it, ty.elem, classes))))
+            parts.append(sunit(ty.elem, box(coerce(it, ty.elem, classes))))
         if not parts:
             return out
         if len(parts) == 1:
@@ -185,7 +186,7 @@ def seq_literal(items, classes=None):
 
 
 def empty_map(ty):
-    return ty.mk(z3.Empty(z3.SeqSort(ty.k.sort())),
+    return ty.mk(z3.Empty(z3.SeqSort(elem_sort(ty.k))),
                  z3.K(ty.k.sort(), default_term(ty.v)))
 
 
